@@ -83,12 +83,25 @@ def preprocess(u, tmp, shim):
     src = os.path.join(REPO, u['source'])
     if not os.path.exists(src):
         raise W.WeaveError('source file %s missing' % src)
+    if os.path.dirname(os.path.abspath(src)) == os.path.abspath(REPO):
+        # a top-level source would pick up /repo/longlong.h (the configure-generated one with the x86 asm) from its own directory
+        # before any -I: preprocess it through a mirror directory of symlinks that lacks longlong.h
+        top = os.path.join(tmp, 'top')
+        if not os.path.isdir(top):
+            os.makedirs(top)
+            for fn in os.listdir(REPO):
+                if fn != 'longlong.h' and os.path.isfile(os.path.join(REPO, fn)):
+                    os.symlink(os.path.join(REPO, fn), os.path.join(top, fn))
+        src = os.path.join(top, os.path.basename(src))
     cmd = ['gcc', '-E', '-I' + shim, '-I' + os.path.join(VERIF, 'shim'), '-I' + REPO,
            '-I' + os.path.dirname(src), '-DHAVE_CONFIG_H', '-D__GMP_WITHIN_GMP', '-DMPIR_VERIF'] + \
           list(u.get('cppflags', [])) + [src]
     rc, out, err, dt = run(cmd, 120)
     if rc != 0:
         raise W.WeaveError('preprocess failed: ' + err[-2000:])
+    out = out.replace(os.path.join(tmp, 'top') + '/', REPO.rstrip('/') + '/')
+    if re.search(r'__asm__\s*\(\s*"(mulq|divq|bsrq|bsfq|addq|subq|bswap)', out):
+        raise W.WeaveError('x86 inline asm of longlong.h survived preprocessing (shim not in effect)')
     return out
 
 def contracts_include(u):
@@ -240,7 +253,15 @@ def _run_unit(u, keep=False, mutant=None, timeout=None, verbose=False, trace=Fal
         res['weave'] = report
         entry = u.get('entry', 'h_' + u['name'])
         gb = os.path.join(tmp, 'a.gb')
-        rc, out, err, dt = run(['goto-cc', '-o', gb, '--function', entry, path], 300)
+        extra = []
+        for k, es in enumerate(u.get('extra_sources', [])):
+            # further real /repo translation units (tables, helpers), preprocessed the same way and linked into the goto binary unchanged
+            eu = dict(u); eu['source'] = es
+            et = preprocess(eu, tmp, shim)
+            ep = os.path.join(tmp, 'extra%d.c' % k)
+            open(ep, 'w').write(et)
+            extra.append(ep)
+        rc, out, err, dt = run(['goto-cc', '-o', gb, '--function', entry, path] + extra, 300)
         if rc != 0:
             res['reason'] = 'goto-cc: ' + (err or out)[-3000:]
             return res
